@@ -41,34 +41,51 @@ extern void mpt_gnode_swap(MPT_STRUCT(node) *pri, MPT_STRUCT(node) *sec)
  */
 extern void mpt_gnode_switch(MPT_STRUCT(node) *pri, MPT_STRUCT(node) *sec)
 {
-	MPT_STRUCT(node) *parent, *next, *prev, *tmp;
+	MPT_STRUCT(node) *parent, *next, *prev;
 	
+	if (pri == sec) {
+		return;
+	}
+	/* direct neighbours, primary is first */
+	if (sec->next == pri) {
+		pri = sec;
+		sec = pri->next;
+	}
 	/* save node pointers */
 	parent	= pri->parent;
 	next	= pri->next;
 	prev	= pri->prev;
 	
 	/* reassign primary */
-	if ((pri->next = tmp = sec->next)) {
-		tmp->prev = pri;
-	}
-	else if ((pri->parent = tmp = sec->parent)
-	         && tmp->children == sec) {
-		tmp->children = pri;
-	}
-	if ((pri->prev = tmp = sec->prev)) {
-		tmp->next = pri;
-	}
+	pri->parent = sec->parent;
+	pri->next = sec->next;
+	pri->prev = (next == sec) ? sec : sec->prev;
+	
 	/* reassign secondary */
-	if ((sec->next = next)) {
+	sec->parent = parent;
+	sec->next = (next == sec) ? pri : next;
+	sec->prev = prev;
+	
+	/* update references to primary */
+	if ((next = pri->next)) {
+		next->prev = pri;
+	}
+	if ((prev = pri->prev)) {
+		prev->next = pri;
+	}
+	else if ((parent = pri->parent)
+	         && parent->children == sec) {
+		parent->children = pri;
+	}
+	/* update references to secondary */
+	if ((next = sec->next)) {
 		next->prev = sec;
 	}
-	else if ((sec->parent = parent)
+	if ((prev = sec->prev)) {
+		prev->next = sec;
+	}
+	else if ((parent = sec->parent)
 	         && parent->children == pri) {
 		parent->children = sec;
 	}
-	if ((sec->prev = prev)) {
-		prev->next = sec;
-	}
 }
-
